@@ -602,6 +602,49 @@ Section Spec.
   Qed.
 End Spec.
 
+(** * a test whose implemented dependencies are all stored as PASS: Test.Run
+    enters no dependency and evaluates exactly the check of the test itself.
+    No acyclicity is needed (no dependency is entered), any stored results, any
+    fuel above zero. *)
+Section Prefilled.
+  Variable ts : nat -> test.
+  Variable chk : nat -> nat -> outcome3.
+
+  Lemma deps_loop_prefilled runf id : forall ds s,
+      (forall d, In d ds -> implemented (ts d) = true -> res s d = RPass) ->
+      deps_loop ts runf id ds s true = Some (s, true).
+  Proof.
+    induction ds as [|d ds IH]; intros s H; cbn [deps_loop]; [reflexivity|].
+    destruct (is_notimpl (stat (ts d))) eqn:E.
+    - apply IH. intros x Hx. apply H. now right.
+    - assert (P : res s d = RPass).
+      { apply H; [now left|]. unfold implemented. now rewrite E. }
+      rewrite P. cbn [is_notrun]. rewrite P. cbn [is_pass]. apply IH. intros x Hx. apply H. now right.
+  Qed.
+
+  Lemma run_prefilled fuel asdep s id :
+      (forall d, In d (deps (ts id)) -> implemented (ts d) = true -> res s d = RPass) ->
+      run ts chk (S fuel) asdep s id = Some (set_checked s id asdep (chk id (evals id (trace s)))).
+  Proof.
+    intro H. cbn [run]. now rewrite (deps_loop_prefilled _ _ _ _ H).
+  Qed.
+
+  Theorem prefilled_check_alone fuel asdep s id :
+      (forall d, In d (deps (ts id)) -> implemented (ts d) = true -> res s d = RPass) ->
+      let o := chk id (evals id (trace s)) in
+      exists s', run ts chk (S fuel) asdep s id = Some s' /\
+        trace s' = trace s ++ [mkEv id asdep o] /\
+        res s' id = classify o /\
+        (res s' id = RPass <-> o = o_pass) /\
+        (forall j, j <> id -> res s' j = res s j).
+  Proof.
+    intros H o. exists (set_checked s id asdep o). split; [now apply run_prefilled|].
+    split; [apply trace_set_checked|]. split; [apply res_set_checked_same|].
+    split; [rewrite res_set_checked_same; apply classify_pass|].
+    intros j Hj. now apply res_set_checked_other.
+  Qed.
+End Prefilled.
+
 (** * dependency cycles: the model answers [None] for every fuel (the Go code
     recurses until the stack is exhausted) *)
 Definition cyc1 : nat -> test := fun _ => mkTest true Implemented [0].
